@@ -3,6 +3,7 @@ package c18
 import (
 	"fmt"
 	"sort"
+	"strconv"
 	"strings"
 	"testing"
 
@@ -52,8 +53,41 @@ func expectedLines(chunks []string) []string {
 	return lines
 }
 
+// expand: a chunk "~N" stands for N bytes without a newline (long lines arrive in pieces of 32 KiB from io.Copy)
+func expand(ch string) string {
+	if strings.HasPrefix(ch, "~") {
+		if n, err := strconv.Atoi(ch[1:]); err == nil {
+			return strings.Repeat("z", n)
+		}
+	}
+	return ch
+}
+
+func clipq(ss []string) string {
+	var out []string
+	for _, s := range ss {
+		if len(s) > 80 {
+			s = fmt.Sprintf("%s...(%d bytes)", s[:40], len(s))
+		}
+		out = append(out, strconv.Quote(s))
+	}
+	return "[" + strings.Join(out, " ") + "]"
+}
+
 func execWriter(c WriterCase) (v ev.Verdict) {
-	var shared [64]byte
+	shared := make([]byte, 64)
+	rounds := make([][]string, len(c.Rounds))
+	for r, chunks := range c.Rounds {
+		for _, ch := range chunks {
+			e := expand(ch)
+			if len(e) > len(shared) {
+				shared = make([]byte, len(e))
+				v.Classes = append(v.Classes, "long-line")
+			}
+			rounds[r] = append(rounds[r], e)
+		}
+	}
+	c.Rounds = rounds
 	rec := &projsim.Recorder{}
 	l, _ := label.Parse("//:w")
 	w := dawn.VerifNewLineWriter(l, rec)
@@ -68,7 +102,7 @@ func execWriter(c WriterCase) (v ev.Verdict) {
 				shared[i] = '#'
 			}
 			if err != nil || n != len(ch) {
-				return ev.Failf("short-write", "Write(%q) = %d, %v", ch, n, err)
+				return ev.Failf("short-write", "Write(%d bytes) = %d, %v", len(ch), n, err)
 			}
 			if ch != "" && !strings.HasSuffix(ch, "\n") {
 				split = true
@@ -81,7 +115,7 @@ func execWriter(c WriterCase) (v ev.Verdict) {
 		}
 		want := expectedLines(chunks)
 		if strings.Join(got, "\x00") != strings.Join(want, "\x00") || len(got) != len(want) {
-			return ev.Failf("lines-differ", "round %d: chunks %q were delivered as lines %q, want %q (rounds so far: %q)", r, chunks, got, want, c.Rounds[:r+1])
+			return ev.Failf("lines-differ", "round %d: chunks %s were delivered as %d lines %s, want %d lines %s", r, clipq(chunks), len(got), clipq(got), len(want), clipq(want))
 		}
 	}
 	v.NonTrivial = split && len(c.Rounds) > 0
@@ -99,6 +133,9 @@ func genWriter(t *rapid.T) WriterCase {
 		chunks := make([]string, n)
 		for i := range chunks {
 			chunks[i] = rapid.SampledFrom(chunkPool).Draw(t, "chunk")
+			if rapid.IntRange(0, 30).Draw(t, "long") == 7 {
+				chunks[i] = rapid.SampledFrom([]string{"~32768", "~40000", "~65536", "~70000", "~1000", "~4096", "~131072"}).Draw(t, "longchunk")
+			}
 		}
 		c.Rounds = append(c.Rounds, chunks)
 	}
